@@ -186,9 +186,9 @@ def _base_key(r, v):
 def report(chk, build, rejected, stats, tier="quick", asan=False, hooks=True):
     """One violation per rejected run, keyed by (failure kind, crash site / cause, features of the text that TLC derived)."""
     keyed = [(r, v, _base_key(r, v)) for r, v in rejected]
-    # --- crash sites under gdb (signal faults without a Bug:/assert text).  Thorough: every such run.  Quick: the
-    # runs are grouped by (key so far, tail of the output) and three members of each group go through gdb; if they
-    # agree the group gets their site, otherwise every member is examined.
+    # --- crash sites under gdb.  The runs are grouped by (key so far, tail of the output) and 3 (quick) / 40 (thorough)
+    # evenly spaced members of each group go through gdb; if they agree the group gets their site, otherwise every
+    # member is examined.
     need = [(r, v, k) for r, v, k in keyed if k["kind"] in ("fault:program-fault", "fault:signal", "fault:unexpected-signal",
                                                             "fault:bug", "fault:assert") and k["site"].startswith("phase:")]
     if need and not asan:
@@ -199,7 +199,8 @@ def report(chk, build, rejected, stats, tier="quick", asan=False, hooks=True):
             groups.setdefault((json.dumps(x[2], sort_keys=True), x[0].stdout[-160:]), []).append(x)
         todo = []
         for g in groups.values():
-            todo += g if tier != "quick" or len(g) <= 3 else [g[0], g[len(g) // 2], g[-1]]
+            nsample = 3 if tier == "quick" else 40
+            todo += g if len(g) <= nsample else [g[(j * (len(g) - 1)) // (nsample - 1)] for j in range(nsample)]
         with ThreadPoolExecutor(max_workers=8) as ex:
             got = {id(x[0]): s for x, s in zip(todo, ex.map(site_of, todo))}
         rest = []
@@ -305,6 +306,10 @@ def run(chk, tier):
         "fault = death by signal, or 'Program fault' / 'Unexpected signal' / 'Bug:' / 'Assertion failed' / 'Storage allocation error' / sanitizer report in the output",
         "invalidity is certified only by: an error token of Scan.tla, Linear!CheckBalance, unequal bracket counts, and (directive soups) "
         "unbalanced #if/#else/#endif, end of file in #if, an active unterminated string / missing include / #error",
+        "keys of findings: crash sites come from gdb on 3 (quick) / 40 (thorough) evenly spaced members of every group of rejected runs "
+        "with the same kind, phase, TLC-derived features and output tail (all members if these disagree); a hang is keyed by the phase in progress",
+        "thorough: class (a) up to length 4 also runs under a sanitizer build (-fsanitize=address links but cannot run: the conservative "
+        "collector scans stack and data at the first allocation; -fsanitize=bounds is used instead)",
         "command lines are valid and fixed per class (-Fao; -Mno-emax for the many-errors texts; foamlib paths for corpus texts)",
     ]
 
@@ -409,7 +414,7 @@ def run(chk, tier):
             san, san_env = b2, env
             break
         if san:
-            small = [i for i in enum_inputs if len(i.data) <= 4]
+            small = [i for i in enum_inputs if len(i.data) <= 3 or (len(i.data) == 4 and i.kinds == ["ao"])]
             rej, runs = run_family(chk, san, small, stats, "enum under sanitizer", jobs, hooks, env_extra=san_env)
             report(chk, san, rej, stats, tier=tier, asan=True, hooks=hooks)
         else:
@@ -536,9 +541,11 @@ Recorded-event corruption (checks.c07.selftest(): two accepted runs, `-- nothing
  last PhEnd dropped                               stuck at FileEnd
  Msg error inserted before the output             stuck at OutOpen(ao) (code output after an error)
 
-Unchanged tree: quick exits 0 ("held", 13 KNOWN-FINDING lines) with VERIF_SEED default; the seed reaches only the random family,
-which was also run with VERIF_SEED=1 and 777 (held).  Wall 297 s at load average 42 on 16 cores (1 490 CPU-seconds, of which about
-350 are the 392 texts that trigger the lone-`#` loop, each running until its 64 MB address-space bound).
+Unchanged tree: quick exits 0 ("held", 13 KNOWN-FINDING lines, 40 776 runs judged) with VERIF_SEED default; the seed reaches only
+the random family, which was also run with VERIF_SEED=1 and 777 (held).  Wall 246-297 s at load average 40 on the shared 16 cores
+(1 220-1 490 CPU-seconds, of which about 350 are the 392 texts that trigger the lone-`#` loop, each running until its 64 MB
+address-space bound); on an idle machine that is about 120-150 s.  Thorough: 638 103 runs judged (462 220 class-string texts, 41 371
+directive soups, 13 494 mutants of 36 valid texts, 30 000 random texts, 90 927 texts again under -fsanitize=bounds), 48 min at load 45.
 
 Model corrections made during development (not findings):
  * a corpus text with an `#if 0 ... #endif` region: deleting a bracket inside the skipped region was certified "brackets".  Scan.tla
